@@ -313,6 +313,41 @@ def _all_listeners_told(an: Analysis, callee, stmt) -> bool:
     return ok and n > 0
 
 
+def _comparison_tests(an: Analysis, init) -> set:
+    """
+    what `_test()` of a comparison computes, in terms of the constructor's parameters: the
+    thunks stored into `self._test` on the construction paths (lambda / partial, through
+    helpers that return them), or the returns of a `_test` method with the attributes
+    replaced by what the constructor stored in them
+    """
+    forms = set()
+    method = an.p.find_method(COMPARISON, '_test')
+    callee = Callee(init, COMPARISON)
+    if method is None:
+        for path in an.paths(callee):
+            for index, event in enumerate(path.events):
+                if event.kind == 'store' and event.get('path') == 'self._test':
+                    value = event.data.get('value')
+                    found = rules.value_expr(path, index, value) if value is not None \
+                        else None
+                    body = rules.thunk_body(an, init, found) if found is not None else None
+                    forms.add('?' if body is None else ast.unparse(body))
+        return forms
+    held = {}
+    for path in an.paths(callee):
+        for index, event in enumerate(path.events):
+            if event.kind == 'store' and (event.get('path') or '').startswith('self.') and \
+                    event.data.get('value') is not None and event.depth == 0:
+                held.setdefault(event['path'], set()).add(
+                    rules.value_text(path, index, event['value']))
+    single = {attr: next(iter(values)) for attr, values in held.items() if len(values) == 1}
+    for _atoms, text, _node, _path in returned_forms(an, Callee(method, COMPARISON)):
+        for attr in sorted(single, key=len, reverse=True):
+            text = text.replace(attr, single[attr])
+        forms.add(text)
+    return forms
+
+
 def _store_roots(an: Analysis, fn, depth: int = 3):
     """``fn``, or -- for a private plain function / static helper that only sets what it is
     given -- the functions that call it (where it runs in place)"""
@@ -840,14 +875,7 @@ def _check_algebra(check, an: Analysis, classes):
     check.instance('B', '~AsyncComparison', ok, where_fn(an.method(COMPARISON, '__invert__')),
                    'same operands, complemented operator')
     init = an.method(COMPARISON, '__init__')
-    made = [n.value for n in ast.walk(init.node)
-            if isinstance(n, ast.Assign) and ast.unparse(n.targets[0]) == 'self._test']
-    while any(isinstance(v, ast.IfExp) for v in made):
-        # either branch may become the test
-        made = [b for v in made for b in ((v.body, v.orelse) if isinstance(v, ast.IfExp)
-                                          else (v,))]
-    tests = [rules.thunk_body(an, init, value) for value in made]
-    forms = sorted('?' if body is None else ast.unparse(body) for body in tests)
+    forms = sorted(_comparison_tests(an, init))
     check.instance('B', 'AsyncComparison._test', forms == [
         'condition(left.value, right)', 'condition(left.value, right.value)'],
         where_fn(init), 'the test applies the operator to the current values: %s' % forms)
